@@ -262,6 +262,8 @@ def correspond(pid, spec, tier, seed, release=False, tag=""):
         p = subprocess.run([os.path.join(LEAN, ".lake", "build", "bin", "driver")], stdin=fin, stdout=fout,
                            stderr=subprocess.PIPE, timeout=3000)
     res["driver_s"] = round(time.time() - t0, 2)
+    mm = re.search(r"history-mirror: (\d+) lines", p.stderr.decode(errors="replace"))
+    res["history_mirror_lines"] = int(mm.group(1)) if mm else 0
     if p.returncode != 0:
         res["diffs"].append({"case": "driver", "op": "", "impl": "", "model": "driver exited with %d: %s" % (p.returncode, p.stderr.decode(errors="replace")[-400:])})
         return res
@@ -492,6 +494,7 @@ def run_check(pid, tier, seed):
         "distribution": meta.get("distribution", {}),
         "correspondence": [{"profile": p, "lines_compared": cr.get("lines_compared", 0), "differences": cr.get("ndiffs", 0),
                             "model_faults": cr.get("model_faults", 0), "harness_s": cr.get("harness_s"), "driver_s": cr.get("driver_s"),
+                            "history_mirror_lines": cr.get("history_mirror_lines", 0),
                             "crashed": bool(cr["crashed"])} for p, cr in corr_runs],
         "oracle_failures": [f for _, _, f in oracle_failures][:20],
         "known_findings_matched": [k["id"] for k in known_hits],
